@@ -113,7 +113,7 @@ func awkwardAny() []namedValue {
 	out := []namedValue{
 		{"nil", reflect.Zero(anyType)},
 		// values that some `any` parameter gives a meaning to (logger designations)
-		nv(`"stderr"`, "stderr"), nv(`"STDOUT"`, "STDOUT"), nv("int 2", 2), nv("*log.Logger", log.New(io.Discard, "", 0)), nv("(*log.Logger)(nil)", (*log.Logger)(nil)),
+		nv(`"stderr"`, "stderr"), nv(`"STDOUT"`, "STDOUT"), nv("int 2", 2), nv("*log.Logger", log.New(io.Discard, "", 0)), nv("live *log.Logger", c11EnvLogger), nv("(*log.Logger)(nil)", (*log.Logger)(nil)),
 		nv("(*int)(nil)", np), nv("(**string)(nil)", (**string)(nil)), nv("&(*string)(nil)", &nilStr), nv("**int", &pn),
 		nv("(*Stack)(nil)", (*stackage.Stack)(nil)), nv("(*Condition)(nil)", (*stackage.Condition)(nil)), nv("(*StackAlias)(nil)", (*StackAlias)(nil)), nv("(*CondAlias)(nil)", (*CondAlias)(nil)),
 		nv("Stack{}", stackage.Stack{}), nv("Condition{}", stackage.Condition{}), nv("StackAlias{}", StackAlias{}), nv("CondAlias{}", CondAlias{}), nv("&Stack{}", &stackage.Stack{}),
